@@ -202,6 +202,7 @@ def run_check(pid: str, tier: str, seed: int, jobs: int) -> int:
     unlisted = {k: v for k, v in by_key.items() if k not in known_keys}
 
     rdir = os.path.join(VERIF_ROOT, "replays", pid)
+    shutil.rmtree(rdir, ignore_errors=True)  # replay files always belong to the latest run
     nviol = 0
     if unlisted:
         os.makedirs(rdir, exist_ok=True)
